@@ -14,7 +14,6 @@ def errName : Err → String
   | .finalBackslash => "RuntimeError:final-backslash"
   | .notTopLevel => "RuntimeError:not-top-level"
   | .inconsistent => "RuntimeError:inconsistent"
-  | .notDirective => "ParseError:not-a-directive"
 
 def catName : Cat → String
   | .srcNonblank => "SRC_NONBLANK" | .blank => "BLANK" | .cppDirective => "CPP_DIRECTIVE"
@@ -28,7 +27,8 @@ def modelJson (t : List Char) : Json :=
     | some e => Json.mkObj [("exc", errName e)]
     | none => Json.mkObj [
         ("lines", Json.arr ((r.all.filter LLine.yielded).map fun l =>
-          Json.arr #[natArr l.lines, Json.str (String.ofList l.text), Json.str (catName l.cat), (l.start : Nat), (l.stop : Nat)]).toArray),
+          Json.arr #[natArr l.lines, Json.str (String.ofList l.text), Json.str (catName l.cat), (l.start : Nat), (l.stop : Nat),
+            Json.bool l.isDirective]).toArray),
         ("total", r.total), ("phys", r.phys), ("counted", natArr (r.all.flatMap (·.lines)))]
   let parse : Json := match parseFile t with
     | .error e => Json.mkObj [("exc", errName e)]
@@ -49,7 +49,7 @@ def identLines (t : List Char) : List Nat :=
 
 def specJson (t : List Char) : Json :=
   let r := CbiVerif.CLexRef.result t
-  Json.mkObj [("wf", r.wf), ("k1", r.k1), ("k2", r.k2), ("k3", r.k3), ("counted", natArr r.counted),
+  Json.mkObj [("wf", r.wf), ("k1", r.k1), ("k2", r.k2), ("counted", natArr r.counted),
     ("logical", pairsJson r.logical), ("nodes", pairsJson r.nodes), ("ident_lines", natArr (identLines t))]
 
 /-- {"op":"clex","text":…,"univ":bool} → {"model":…, "spec":…}; with `univ` the text is first
